@@ -88,6 +88,13 @@ def run(ctx):
             allow[(fk, "windows")] = "windows(2): adjacent pairs compared (scheme consistency; validated by E4.scheme)"
         F.check_no_dropping_adapters(ctx, "E7.adapters", P, [fk], allow=allow)
     F.check_combiner_lengths(ctx, "E4.len-range", P)
+    # "empty, single, duplicated ... share sets and parameters outside the range are reported as errors": reported, not
+    # aborted on - the abort census over the share entry points (both profiles)
+    from . import aborts as A_
+
+    roots_ = ["SecretKey<C>::split", "SecretKey<C>::split_with_rng", "SecretKey<C>::combine", "Signature<C>::from_shares", "PublicKey<C>::from_shares", "SecretKeyShare<C>::sign", "SecretKeyShare<C>::public_key", "PublicKeyShare<C>::verify", "SignatureShare<C>::verify"]
+    A_.check_aborts(ctx, "E8", P, roots_, scope="C08")
+    A_.check_aborts(ctx, "E8", ctx.prog("blst", "nodebug"), roots_, scope="C08", profile="nodebug")
     # tables keyed by a share identifier cover the whole identifier range (1..=255)
     from .common import reachable_fns
 
